@@ -288,10 +288,48 @@ Qed.
 (* a conforming client (handshake bytes first in the input when the handler
    reaches Request.StartTLS): the handshake step is enabled and consumes them *)
 Theorem c13_first_byte cfg s c k rest inp : pc c = CInline k (HHandshake :: rest) -> input c = IHello :: inp ->
-  exists c', conn_step cfg s c = Some (c', ENone) /\ input c' = inp /\ pc c' = CInline k rest.
+  exists c', conn_step cfg s c = Some (c', ENone) /\ input c' = inp /\
+             pc c' = CInline k (stale_script rest) /\ hs c' = stale_hs (hs c).
 Proof.
   intros Hpc Hin. unfold conn_step. rewrite Hpc. cbn [hstep_enabled]. rewrite Hin. cbn [negb].
-  eexists. split; [reflexivity|]. split; reflexivity.
+  eexists. split; [reflexivity|]. repeat split; reflexivity.
+Qed.
+
+(* "after a successful upgrade every byte is TLS-protected" - for the handlers that start
+   afterwards.  A handler that was already running keeps the ResponseWriter it was given, and
+   that one writes to the raw socket: at the upgrade its remaining writes become stale writes.
+   Nothing is staled exactly when nothing was in flight and the StartTLS handler itself writes
+   nothing more. *)
+Theorem c13_clean_upgrade cfg s c k rest inp c' e :
+  pc c = CInline k (HHandshake :: rest) -> input c = IHello :: inp -> conn_step cfg s c = Some (c', e) ->
+  hs c = [] -> Forall (fun h => h <> HWrite) rest -> hs c' = [] /\ pc c' = CInline k rest.
+Proof.
+  intros Hpc Hin Hs Hh Hr. destruct (c13_first_byte cfg s c k rest inp Hpc Hin) as (c1 & E & _ & Hp & Hhs).
+  rewrite E in Hs. inversion Hs; subst. rewrite Hhs, Hh, Hp. split; [reflexivity|]. f_equal.
+  clear - Hr. unfold stale_script. induction Hr as [|h r Hh Hr IH]; [reflexivity|].
+  cbn [map]. rewrite IH. destruct h; try reflexivity. exfalso. apply Hh. reflexivity.
+Qed.
+
+(* the statement at full strength is false of the code: a request whose handler is still
+   running when a later StartTLS on the same connection completes is answered in the clear.
+   Client: Search, StartTLS, ClientHello; the search handler answers after the handshake. *)
+Definition late_writer_run : list label :=
+  [ECallRun true true; LRun; LRun; EConnect; LRun; LRun; LConn 0; LConn 0;
+   ESend 0 (IReq KNormal [HBarrier 5; HWrite]); LConn 0; LConn 0;
+   ESend 0 (IReq KStartTLS [HWrite; HHandshake]); LConn 0; LConn 0; ESend 0 IHello; LConn 0;
+   ERelease 5; LHandler 0 1].
+
+Lemma c13_late_writer_refuted :
+  exists s c c', run_labels fixed_cfg init late_writer_run = Some s /\ nth_error (conns s) 0 = Some c /\
+    pc c = CInline KStartTLS [] /\ hs c = [(1, [HStaleWrite])] /\ sent c = 1 /\
+    handler_step fixed_cfg s c 1 = Some (c', ENone) /\ eof c' = true /\ sent c' = 1.
+Proof.
+  eexists. eexists. eexists.
+  split; [vm_compute; reflexivity|].
+  split; [reflexivity|].
+  split; [reflexivity|]. split; [reflexivity|]. split; [reflexivity|].
+  split; [vm_compute; reflexivity|].
+  split; reflexivity.
 Qed.
 
 (* ---------------------------------------------------------------- *)
